@@ -27,8 +27,9 @@ CFG = {
     "exhaustive_note": "JSON truncation: every proper prefix of the generated valid documents (2 per quick run, 6 per "
                        "thorough run); everything else is sampled",
     "trusted_base": COMMON_TB + [
-        "serde_json (library): Section variable json_de (a value off the front of the buffer, as body.rs calls it) "
-        "and json_strict (the whole buffer is one JSON text); per case both are obtained by calling the library",
+        "serde_json (library): Section variable json_de = the whole buffer is one JSON document of the body type "
+        "(deserialize one value, then Deserializer::end(), as body.rs does); per case obtained by calling "
+        "serde_json::from_slice",
         "serde's derive for plain structs, serde_urlencoded 0.7.1, form_urlencoded 1.2.1, mime 0.3.16 + "
         "multer::parse_boundary, http::HeaderValue::to_str, core FromStr: transcribed in the model and compared on "
         "every run",
@@ -56,8 +57,9 @@ CFG = {
                 "~7k (thorough) malformed requests against a live server; status class, error-body shape, "
                 "handler-entered counter and server liveness judged in Coq.",
         "design_ref": "DESIGN.md §6 C10",
-        "note": "serde_json is an oracle; hyper and routing are taken as given. Open known finding K10 (a JSON "
-                "document followed by trailing non-blank bytes is accepted and the handler runs).",
+        "note": "serde_json is an oracle; hyper and routing are taken as given. K10 (a JSON document followed "
+                "by trailing non-blank bytes was accepted) was repaired in /repo (83cdda6); the clause is stated at "
+                "full strength and its witness runs first on every check. No open finding.",
         "technique": "Coq proof (declarative characterisation of the derived deserialiser, error-constructor "
                      "enumeration) + live-server malformed-stream correspondence",
     },
